@@ -103,7 +103,7 @@ static void ratec_case(Toks& tk, Out& out, std::size_t ncells)
     else if (ps[r].kind == 1)
     {
       labels.push_back("u" + std::to_string(r));
-      procs.push_back(MK_PROCESS(micm::UserDefinedRateConstant({ .label_ = "u" + std::to_string(r), .scaling_factor_ = 0.5 })));
+      procs.push_back(MK_PROCESS(micm::UserDefinedRateConstant({ .label_ = "u" + std::to_string(r), .scaling_factor_ = (r % 3 == 2 ? 0.0 : 0.5) })));   // a reaction switched off by a zero scaling factor
     }
     else
       procs.push_back(MK_PROCESS(micm::ArrheniusRateConstant({ .A_ = 3.0 + r })));
@@ -180,7 +180,7 @@ static void ratec_case(Toks& tk, Out& out, std::size_t ncells)
           v += (double)(i + 1) * vals[c * nparams + off + i];
       }
       else if (ps[r].kind == 1)
-        v = 0.5 * vals[c * nparams + off];
+        v = (r % 3 == 2 ? 0.0 : 0.5) * vals[c * nparams + off];
       else
         v = 3.0 + r;
       for (int k = 0; k < ps[r].nthird; ++k)
